@@ -1,16 +1,30 @@
 #!/bin/bash
-# tools/crossmatrix.sh [patches...]   runs EVERY check (quick) against each deliberate change and prints which
-# checks report it. Alarms by checks of properties the change was not written to break are listed so they can be
-# judged (a legitimate second property broken, or an over-strict oracle).
+# tools/crossmatrix.sh [patches...]   runs every check that can be affected by the files a deliberate change
+# touches (by package dependency) and prints which checks report it. Alarms by checks of properties the change was
+# not written to break are then judged: a legitimately broken second property, or an over-strict oracle.
 HERE="$(cd "$(dirname "$0")/.." && pwd)"; cd "$HERE"
-P=("$@"); [ ${#P[@]} = 0 ] && P=(mutants/C*.patch seeded/C*/patch.diff)
+P=("$@"); [ ${#P[@]} = 0 ] && P=(seeded/C*/patch.diff mutants/C*.patch)
 for p in "${P[@]}"; do
   name=$(echo $p | sed 's#/patch.diff##; s#.*/##; s#\.patch$##'); own=${name:0:3}
-  hits=""
-  for i in $(seq -w 1 19); do
-    tools/mutant.sh $p C$i > /tmp/cross.$$ 2>&1; rc=$?
-    if [ $rc = 1 ]; then hits="$hits C$i"; elif [ $rc != 0 ]; then hits="$hits C$i(rc=$rc)"; fi
+  files=$(grep '^+++ b/' $p | sed 's#+++ b/##')
+  sel=""
+  for f in $files; do
+    case $f in
+      emulator/*|xbuf/*) sel="$sel C01 C02 C03 C07 C08 C11 C12 C13 C14 C18";;
+    esac
+    case $f in
+      asm/*|xbuf/*) sel="$sel C03 C06 C07 C15 C16 C19 C18";;
+      mapping/*) sel="$sel C04 C05 C11 C18";;
+      rom.go|header.go) sel="$sel C09 C10 C18";;
+      color15/*) sel="$sel C17 C18";;
+    esac
   done
-  echo "$name: own=$own reported-by:$hits"
+  sel=$(echo $sel | tr ' ' '\n' | sort -u | tr '\n' ' ')
+  hits=""
+  for c in $sel; do
+    tools/mutant.sh $p $c > /tmp/cross.$$ 2>&1; rc=$?
+    if [ $rc = 1 ]; then hits="$hits $c"; elif [ $rc != 0 ]; then hits="$hits $c(rc=$rc)"; fi
+  done
+  echo "$name: own=$own checked:[$sel] reported-by:$hits"
 done
 rm -f /tmp/cross.$$
